@@ -63,4 +63,9 @@ CHECKS = {
         "case = one fault-free timed world with MaxTimePerBlock/TimePerBlock in {1,1.5,2,3,8} (or off), identical pools, per height a transaction arriving never / before the minimum / during the extended wait (kept 4 latencies away from the 2*TimePerBlock race); "
         "non-trivial = some round entered the extended wait; distinct = hash of the choice stream",
         400, 10000, assumptions=ASYNC_ASSUME + ["latency = TimePerBlock/50; gaps are judged with a tolerance of two latencies"]),
+    "C06": rapid("TestC06",
+        "enumeration: every validator count N=1..65535 (context initialised through Start/Reset) x every view 0..255 x boundary ledger heights {N-1, 2^31-1, 2^32-1} (all of {0,1,2,N-1,N,N+1,2^31-1,2^31,2^32-2,2^32-1} for N<=4096; for every N in the thorough tier); "
+        "rotation over N consecutive views for N<=256 and over N consecutive heights for N<=512; plus rapid-drawn (N, height, view) triples checked against a big-integer reference; "
+        "non-trivial = N>1 or negative (h-v) or h>=2^31; cases are distinct by construction (grid points) / by (N,h,v) for drawn ones",
+        2000, 20000, assumptions=["F_ref is computed by search (largest f with 3f+1<=N), the primary by 64-bit and big-integer arithmetic"]),
 }
